@@ -416,6 +416,7 @@ class Outcome:
                 print("VIOLATION property=%s replay=%s" % (self.prop, path))
                 print("  signature=%s engine=%s%s input=%s got=%s want=%s" % (sig, f0["engine"], (":" + f0["variant"]) if f0.get("variant") else "", f0["input"][:300], str(f0["got"])[:200], str(f0["want"])[:200]))
             rc = 1
+        prune_work()
         total_nt = sum(self.nontrivial.values())
         wall = time.monotonic() - self.t0
         inconclusive = None
@@ -452,6 +453,17 @@ class Outcome:
         if rc == 0:
             print("OK property=%s tier=%s seed=%d evaluations=%d distinct_nontrivial=%d engines=%s wall_s=%.1f" % (self.prop, self.tier, self.seed, self.evals, total_nt, ",".join(sorted(self.engines)), wall))
         return rc
+
+
+def prune_work():
+    """Generated sources stay (replay files point at them); compiled artefacts go."""
+    for root, dirs, files in os.walk(WORK):
+        for f in files:
+            if f.endswith((".bin", ".rmeta", ".rlib")) or (root.endswith("/src") is False and "." not in f and os.access(os.path.join(root, f), os.X_OK)):
+                try:
+                    os.remove(os.path.join(root, f))
+                except OSError:
+                    pass
 
 
 def write_inconclusive_evidence(prop, tier, seed, reason):
